@@ -294,6 +294,9 @@ pub struct Sim<'a> {
     pub rebased: bool,
     pub all_eager: bool,
     pub aborted: bool,
+    /// signed quantity per symbol of orders the exchange has filled while the fill never reached the broker
+    /// (injected lost response): the broker legitimately still counts them as pending
+    pub lost_pending: BTreeMap<String, f64>,
 }
 
 pub struct OpOutcome {
@@ -303,6 +306,8 @@ pub struct OpOutcome {
     pub tick_trades: Vec<Trade>,
     pub ticked: bool,
     pub last_has_next: Option<bool>,
+    /// trades the exchange executed on a tick whose response (or whose following quote response) was lost
+    pub lost_trades: Vec<Trade>,
 }
 
 impl<'a> Sim<'a> {
@@ -327,6 +332,7 @@ impl<'a> Sim<'a> {
             bt,
             led: Ledger::new(),
             wire_seen: 0,
+            lost_pending: BTreeMap::new(),
             ticks: 0,
             json: case.path == Path::Json,
             ever_failed: false,
@@ -341,18 +347,32 @@ impl<'a> Sim<'a> {
     /// Read the wire entries produced since the last call: book trades, merge quotes, collect the
     /// orders that reached the server.
     pub fn absorb_wire(&mut self) -> OpOutcome {
-        let mut out = OpOutcome { failed: 0, arrivals: vec![], tick_trades: vec![], ticked: false, last_has_next: None };
+        let mut out = OpOutcome { failed: 0, arrivals: vec![], tick_trades: vec![], ticked: false, last_has_next: None, lost_trades: vec![] };
         let wire = self.sh.wire.borrow();
         let mut pending_tick: Option<Vec<Trade>> = None;
         for w in wire[self.wire_seen..].iter() {
             match w {
                 Wire::Tick { trades, has_next, .. } => {
-                    // the broker books a tick's trades only once the following fetch_quotes succeeded
+                    // a tick's trades are booked when its quote request has been answered or has failed
+                    if let Some(ts) = pending_tick.take() {
+                        out.lost_trades.extend(ts);
+                    }
                     pending_tick = Some(trades.clone());
                     out.ticked = true;
                     out.last_has_next = Some(*has_next);
                     self.ticks += 1;
                     self.ctx.sim_ticks += 1;
+                }
+                Wire::TickLost { trades, has_next, .. } => {
+                    // the server ticked, the broker saw an error: it can know nothing of these trades
+                    out.lost_trades.extend(trades.iter().cloned());
+                    out.failed += 1;
+                    out.ticked = true;
+                    out.last_has_next = Some(*has_next);
+                    self.ticks += 1;
+                    self.ctx.sim_ticks += 1;
+                    self.ctx.bump("f13_tick_response_lost");
+                    ev!(self.ctx, "fault: the server ticked ({} trades), the tick response was lost, the client returned Err", trades.len());
                 }
                 Wire::Fetch { quotes, .. } => {
                     for q in quotes {
@@ -366,12 +386,38 @@ impl<'a> Sim<'a> {
                     }
                 }
                 Wire::Insert { order, .. } => out.arrivals.push(order.clone()),
-                Wire::Failed { .. } => {
+                Wire::Failed { what } => {
                     out.failed += 1;
-                    self.ctx.bump("f10_insert_order_request_lost");
+                    ev!(self.ctx, "fault: {what} failed at the transport (client returned Err)");
+                    match *what {
+                        "insert_order" => self.ctx.bump("f10_insert_order_request_lost"),
+                        "tick" => self.ctx.bump("f12_tick_request_lost"),
+                        _ => {
+                            // the quotes are lost, the tick's trades are not: they arrived with the tick
+                            // response and must be booked (C04 / C05 "every trade the exchange has executed")
+                            self.ctx.bump("f13_quote_response_lost");
+                            if let Some(ts) = pending_tick.take() {
+                                for t in &ts {
+                                    self.led.book_trade(t);
+                                }
+                                out.tick_trades.extend(ts);
+                            }
+                        }
+                    }
                 }
                 _ => {}
             }
+        }
+        if let Some(ts) = pending_tick.take() {
+            out.lost_trades.extend(ts);
+        }
+        for t in &out.lost_trades {
+            let signed = match t.typ {
+                TradeType::Buy => t.quantity,
+                TradeType::Sell => -t.quantity,
+            };
+            *self.lost_pending.entry(t.symbol.clone()).or_insert(0.0) += signed;
+            self.ctx.bump("f13_trades_the_broker_could_not_learn_of");
         }
         drop(wire);
         self.wire_seen = self.sh.wire_len();
@@ -392,7 +438,9 @@ impl<'a> Sim<'a> {
                 && std::mem::discriminant(&a.typ) == std::mem::discriminant(&b.typ)
                 && if json { close(a.value, b.value, 1e-12) && close(a.quantity, b.quantity, 1e-12) } else { a.value == b.value && a.quantity == b.quantity }
         };
-        let ok = executed.len() == out.tick_trades.len() && executed.iter().zip(out.tick_trades.iter()).all(|(a, b)| same(a, b));
+        // a lost response (injected) loses the whole tick's trades: they count as accounted for, narrowly
+        let delivered: Vec<&Trade> = out.tick_trades.iter().chain(out.lost_trades.iter()).collect();
+        let ok = executed.len() == delivered.len() && executed.iter().zip(delivered.iter()).all(|(a, b)| same(a, *b));
         if !executed.is_empty() && executed.windows(2).any(|w| same(&w[0], &w[1])) {
             self.ctx.bump("probe_equal_adjacent_executions_in_one_tick");
         }
@@ -499,6 +547,10 @@ impl<'a> Sim<'a> {
                 for ord in snap.book.iter().chain(snap.buffer.iter()) {
                     let sign = if Typ::from_sut(ord.order_type).is_buy() { 1.0 } else { -1.0 };
                     *outstanding.entry(ord.symbol.clone()).or_insert(0.0) += sign * ord.shares;
+                }
+                // fills the broker could not learn of (injected lost responses) are still pending for it
+                for (k, v) in &self.lost_pending {
+                    *outstanding.entry(k.clone()).or_insert(0.0) += v;
                 }
                 outstanding.retain(|_, v| *v != 0.0);
                 // the broker's pending is a running float sum: tolerance relative to everything ever accepted
@@ -1471,7 +1523,13 @@ pub fn gen_modes_f(rng: &mut Rng, eager_only: bool, delay_p: f64, fail_p: f64) -
     (0..n)
         .map(|_| {
             if rng.chance(fail_p) {
-                Delivery::InsertFails
+                // which request the slot meets decides which fault it is: a slot is honoured by the requests
+                // named in simclient.rs and is a plain lazy delivery for every other request
+                match rng.usize(4) {
+                    0 | 1 => Delivery::InsertFails,
+                    2 => Delivery::TickFails,
+                    _ => Delivery::ResponseLost,
+                }
             } else if rng.chance(delay_p) {
                 if rng.one_in(2) {
                     Delivery::LazyPending(rng.range(1, 3) as u8)
